@@ -38,8 +38,12 @@ CLAIMED = {
          "get(i) returns the i-th element for i < len and panics from len on, for region-backed and owned-borrowed slice and row items with adjacent neighbours; FlatStack::get is covered by C03's replay.", "5 C13"),
  "C14": ("tlc-regions", "TLC invariant CloneOntoLaw (clone_onto written as the code's algorithm) + replayed clone_onto/borrow/push_from",
          "clone_onto(x, t) = into_owned(x) for every t of the domain; borrow_as(&into_owned(x)) renders as x; pushing a read item (region-backed or owned-borrowed) into another region yields an equal item.", "5 C14"),
+ "C15": ("tlc-regions", "TLC invariant OrderLaws (oracle is a total order) + one replayed comparison per pair and representation; Huffman raw-vs-coded comparisons through TraceHuffman",
+         "The lexicographic oracle CmpV is checked to be a consistent total order on the domain; every pair of items of every comparable slice composition (region-backed and owned-borrowed) is compared on the real code with ==, !=, partial_cmp, cmp in both directions and must equal the oracle's answer; raw vs Huffman-coded items are compared in recorded runs validated against LexCmp.", "5 C15"),
  "C16": ("tlc-regions", "TLC model with Serde copy action + replay through serde_json with copy-vs-original comparison",
          "Serialising to JSON and back yields an object that reads identically and answers the same continuation as the original (regions, index containers, FlatStacks); values JSON cannot carry (NaN) are outside the domain.", "5 C16"),
+ "C17": ("tlc-alloc", "TLC invariants ReserveItemsSufficient / ReserveRegionsSufficient on the capacity-ledger operators of Regions.tla + trace validation of capacities and allocator calls against TraceAlloc",
+         "On the model, what each region's reserve_items / reserve_regions / merge_regions rule reserves per backing vector is enough for exactly the announced contents (all reachable states, all batches). On the code, a counting allocator and heap_size capacities are recorded around every push of pre-sized and un-pre-sized histories; TLC decides from its own ledger which pushes are covered and requires constant capacities and zero allocator calls for them, doubling growth and a logarithmic allocator budget otherwise.", "5 C17"),
  "C18": ("tlc-regions", "TLC action property UsedMonotone + PayloadR lower bound; replay comparing heap_size sums and inequalities",
          "used <= capacity pairwise, sum(used) >= the model's payload + index-entry bytes, non-decreasing on push, back to bookkeeping after clear with no capacity shrinking; the FlatStack's index container must contribute.", "5 C18"),
  "C19": ("tlc-index", "TLC invariant CostRule (documented cost computed independently from the pushed sequence) + replay of heap_size",
@@ -48,10 +52,9 @@ CLAIMED = {
          "Every (state, value, form) is a transition; the replay runs the same history with the canonical form and requires equal indices, equal stored bytes and equal reads.", "5 C20"),
 }
 NOT_YET = {
- "C15": "comparison oracle (CmpItems) under construction in this session",
- "C17": "Alloc (capacity ledger) specification under construction in this session",
 }
 ENGINES = [
+ {"name": "tlc-alloc", "path": "spec/TraceAlloc.tla", "serves_properties": ["C17"], "kind_free_text": "TLC model checking of the ledger rule (RegionsMC) and TLC trace validation of recorded capacities / allocator calls (harness alloc-run) with TraceAlloc.tla"},
  {"name": "tlc-huffman", "path": "spec/HuffmanMC.tla", "serves_properties": ["C06"], "kind_free_text": "TLC model checking of HuffmanMC.tla, scenario execution (harness huff-run) and TLC trace validation with TraceHuffman.tla"},
  {"name": "tlc-dictionary", "path": "spec/DictMC.tla", "serves_properties": ["C07"], "kind_free_text": "TLC model checking of DictMC.tla, scenario execution (harness dict-run) and TLC trace validation with TraceDict.tla"},
  {"name": "tlc-index", "path": "spec/ICMC.tla", "serves_properties": ["C05", "C19"], "kind_free_text": "TLC explicit-state model checking of IndexContainers.tla over Word64 + transition replay (harness ic-replay)"},
